@@ -77,14 +77,18 @@ def Fs.createDirAll (fs : Fs) (cwd : Path) (s : Bytes) : Except FsErr Fs :=
     | fuel+1, c :: rest =>
       if c = [dot, dot] then go fs cur.dropLast fuel rest
       else
-        match resolve fs true (fuelFor fs) cur [c] with
-        | none => .error .loop
-        | some p =>
-          match fs.lookup p with
-          | some .dir => go fs p fuel rest
-          | some (.file _) => .error .notDir
-          | some (.link _) => .error .notFound          -- dangling link in the way (mkdir: EEXIST → error)
-          | none => go (fs.setNode p .dir) p fuel rest
+        match fs.lookup (cur ++ [c]) with
+        | none => go (fs.setNode (cur ++ [c]) .dir) (cur ++ [c]) fuel rest     -- mkdir
+        | some .dir => go fs (cur ++ [c]) fuel rest
+        | some (.file _) => .error .notDir
+        | some (.link _) =>
+          -- mkdir says EEXIST; create_dir_all then accepts it only if it *is* a directory (following the link)
+          match resolve fs true (fuelFor fs) cur [c] with
+          | none => .error .loop
+          | some p =>
+            match fs.lookup p with
+            | some .dir => go fs p fuel rest
+            | _ => .error .exists
   go fs (if isAbs s then [] else cwd) (fuelFor fs) (comps s)
 
 /-- `File::create` + writing `content`: follows a final symlink, truncates an existing file
